@@ -1,6 +1,6 @@
 """End-to-end theorems about the whole program as one Lean function (`TLX.Export.exportFile`, lean/TLX/Props/Export.lean).
 The function itself is tied to the real tool by harness/file_corr.py (output files compared byte for byte)."""
-MODULES = ["TLX.Props.Export", "TLX.Props.C01File"]
+MODULES = ["TLX.Props.Export", "TLX.Props.C01File", "TLX.Props.C09Found", "TLX.Props.C01File2"]
 P = "TLX.Props.Export."
 THEOREMS = [P + n for n in (
     "framesFrom_error_iff", "exportFrom_stages", "goodFrame_of", "export_wellformed",
@@ -11,7 +11,14 @@ THEOREMS = [P + n for n in (
     "ingest_of_capture", "session_of_items", "file_of_frames", "export_of_session",
     "tls12_file_exact", "tls13_file_exact", "exact_frames_parse",
     "dissect_seg", "capOk_of_described", "flow_filter", "dirSegs_flow", "roles_of_flow", "capture_read",
-    "described_session", "tls12_capture_exact", "tls13_capture_exact", "Ex.tls12_file_instance")]
+    "described_session", "tls12_capture_exact", "tls13_capture_exact", "Ex.tls12_file_instance")] + [
+    "TLX.Props.C09Found." + n for n in (
+        "getKey_line", "parse_fileText", "keylog_line_found", "findSessionSecrets_fileText", "found12_fileText",
+        "found13_fileText", "srcHexClass_any")] + ["TLX.Props.C01File2." + n for n in (
+    # no abort alternative; the key log as file text
+    "reassemble_total", "connOut_fits", "recordsFit_of_total", "export_of_session_file", "exported_lt", "capInfo_ts",
+    "tls12_capture_exact_file", "tls13_capture_exact_file", "tls12_capture_exact_text", "tls13_capture_exact_text",
+    "views_of_ignored", "othersFit_of_ignored", "Ex.tls12_text_instance")]
 # lemmas the theorems rest on (audited with them: same import closure)
 LEMMAS = ["TLX.Lemmas.DissectAddr.dissect_addr_lengths", "TLX.Lemmas.Export.itemsWith_good",
           "TLX.Lemmas.Export.runItems_good", "TLX.Lemmas.Export.framesFrom_wf"]
